@@ -115,11 +115,14 @@ def gnm_random_bqm(variables: Union[int, Sequence[Variable]],
         ui = 0
         vi = 1
         k = 0
-        for t in range(num_interactions):
+        max_interactions = num_variables*(num_variables-1)//2
+        for t in range(max_interactions):
+            # selection sampling over all pairs (Knuth, algorithm S): the pair is
+            # taken with probability (still needed) / (pairs left).
             # this randint one-at-a-time actually dominates the runtime, there
             # is some stuff we can do to imporve performance but it gets into
             # cython territory quickly so I think this is fine for now
-            if random_state.randint(num_interactions - t) < num_interactions - k:
+            if random_state.randint(max_interactions - t) < num_interactions - k:
                 bqm.set_quadratic(labels[ui], labels[vi], qbias[k])
                 k += 1
                 if k == num_interactions:
